@@ -10,9 +10,27 @@
 //!   0 = `.recoverer(..).term_costs(..)`, 1 = `.term_costs(..).recoverer(..)`.  The order is an INPUT of the
 //!   harness: 1 iff (index of the input within the case line + number of lexemes of the input) is odd.  The
 //!   result must not depend on it (the setters are independent; the models know nothing about an order).
+//!
+//! Determinism (C05/C07, /repo ca69cd1): head options after `<hexsrc>`:
+//!   `rep=<n>`    every input that reports at least one error is parsed n times in this process; the sections
+//!                of the first parse are printed as usual, followed by `# DT <n> <number of repeats whose
+//!                sections (TM apart) differ from the first> <max wall ms of a repeat>` and, if one differs,
+//!                `# DX <hex of the sections of the first differing repeat>`
+//!   `only=i,j,…` parse only the inputs with these indices (the index of an input within the case line — an
+//!                input of the BO rule — is kept)
+//!   `nodump=1`   print `G` instead of the grammar / automaton / conflict dumps
+//!
+//! Deep parse stacks (C07/C05, /repo 4f40408): `repair deep <1|2> <depth n> <stack MiB>` (arguments, no stdin)
+//! parses ONE input in this process on a thread with an explicit stack of that size and prints one line:
+//!   grammar 1 `S: 'a' S 'b' | 'c';` on a^n c c b^n      grammar 2 `S: 'a' S | 'b' 'c' | ;` on a^n b
+//!   `DEEP <g> <n> <MiB> # TK a=<tidx> b=<tidx> c=<tidx> # NL <lexemes> # ER … # RS … # VL some|none # LV <runs> # TM <ms>`
+//!   LV: the leaves of the returned value in input order, run-length coded `<tidx>:<faulty>:<len>:<start>:<count>`
+//!   (a run = consecutive leaves of one token / flag / length whose starts go up by 2).  A native stack overflow
+//!   aborts the process (no line, SIGABRT): that is why this mode is a process of its own.
 use gvh::common::*;
 use gvh::util::*;
 use lrpar::{LexParseError, Lexeme, ParseRepair, RTParserBuilder, RecoveryKind};
+use std::collections::VecDeque;
 use std::fmt::Write;
 
 fn conflicts_dump(st: &lrtable::StateTable<u32>) -> String {
@@ -116,14 +134,157 @@ fn parse_with_recovery(b: &Built, toks: &[u32], costs: &[u8], costs_first: bool,
     write!(o, " # TM {}", ms).unwrap();
 }
 
+
+type Leaf = (u32, usize, usize, bool);
+
+fn errors_dump(errs: &[LexParseError<u32, LT>], cap: usize, o: &mut String) {
+    for e in errs {
+        match e {
+            LexParseError::ParseError(e) => {
+                write!(o, " # ER {} {} {}", lexeme_index(e.lexeme()), usize::from(e.stidx()), e.repairs().len()).unwrap();
+                for seq in e.repairs().iter().take(cap) {
+                    o.push_str(" # RS");
+                    for st in seq {
+                        match st {
+                            ParseRepair::Insert(t) => write!(o, " I{}", usize::from(*t)).unwrap(),
+                            ParseRepair::Delete(l) => write!(o, " D{}", lexeme_index(l)).unwrap(),
+                            ParseRepair::Shift(l) => write!(o, " S{}", lexeme_index(l)).unwrap(),
+                        }
+                    }
+                }
+            }
+            LexParseError::LexError(_) => o.push_str(" # LEXERR"),
+        }
+    }
+}
+
+/// one CPCT+ parse whose value is the sequence of its leaves (a deque per subtree, the largest child reused, so that
+/// neither building nor dropping the value recurses: the only deep structure is the parser's own)
+fn deep_parse(b: &Built, toks: &[u32]) -> String {
+    let lexer = ReplayLexer::new(toks.to_vec());
+    let t0 = std::time::Instant::now();
+    let (val, errs) = RTParserBuilder::<u32, LT>::new(&b.grm, &b.st).recoverer(RecoveryKind::CPCTPlus).parse_map(
+        &lexer,
+        &|l: Lx| -> VecDeque<Leaf> {
+            let mut d = VecDeque::with_capacity(1);
+            d.push_back((l.tok_id(), l.span().start(), l.span().len(), l.faulty()));
+            d
+        },
+        &|_ridx, mut nodes: Vec<VecDeque<Leaf>>| -> VecDeque<Leaf> {
+            let mut big = 0;
+            for (i, n) in nodes.iter().enumerate() {
+                if n.len() > nodes[big].len() {
+                    big = i;
+                }
+            }
+            if nodes.is_empty() {
+                return VecDeque::new();
+            }
+            let after: Vec<VecDeque<Leaf>> = nodes.drain(big + 1..).collect();
+            let mut base = nodes.pop().unwrap();
+            for n in nodes.into_iter().rev() {
+                for x in n.into_iter().rev() {
+                    base.push_front(x);
+                }
+            }
+            for n in after {
+                base.extend(n);
+            }
+            base
+        },
+    );
+    let ms = t0.elapsed().as_millis();
+    let mut o = String::new();
+    errors_dump(&errs, 16, &mut o);
+    match val {
+        None => o.push_str(" # VL none"),
+        Some(leaves) => {
+            o.push_str(" # VL some # LV");
+            let mut run: Option<(Leaf, usize)> = None; // first leaf of the run, count
+            for lf in leaves.iter() {
+                match run {
+                    Some((f, k)) if f.0 == lf.0 && f.3 == lf.3 && f.2 == lf.2 && lf.1 == f.1 + 2 * k => run = Some((f, k + 1)),
+                    _ => {
+                        if let Some((f, k)) = run {
+                            write!(o, " {}:{}:{}:{}:{}", f.0, if f.3 { 1 } else { 0 }, f.2, f.1, k).unwrap();
+                        }
+                        run = Some((*lf, 1));
+                    }
+                }
+            }
+            if let Some((f, k)) = run {
+                write!(o, " {}:{}:{}:{}:{}", f.0, if f.3 { 1 } else { 0 }, f.2, f.1, k).unwrap();
+            }
+        }
+    }
+    write!(o, " # TM {}", ms).unwrap();
+    o
+}
+
+fn deep_main(args: &[String]) {
+    let which: usize = args.first().and_then(|x| x.parse().ok()).unwrap_or(1);
+    let n: usize = args.get(1).and_then(|x| x.parse().ok()).unwrap_or(2000);
+    let mib: usize = args.get(2).and_then(|x| x.parse().ok()).unwrap_or(2);
+    let src = if which == 1 { "%start S\n%%\nS: 'a' S 'b' | 'c';\n" } else { "%start S\n%%\nS: 'a' S | 'b' 'c' | ;\n" };
+    let b = match build("O", src) {
+        Ok(b) => b,
+        Err(e) => {
+            println!("DEEPBUILD {}", e);
+            return;
+        }
+    };
+    let tk = |s: &str| u32::from(b.grm.token_idx(s).unwrap());
+    let (a, bb, c) = (tk("a"), tk("b"), tk("c"));
+    let mut toks: Vec<u32> = vec![a; n];
+    if which == 1 {
+        toks.push(c);
+        toks.push(c);
+        toks.extend(std::iter::repeat(bb).take(n));
+    } else {
+        toks.push(bb);
+    }
+    let nl = toks.len();
+    let conflicts = b.st.conflicts().is_some();
+    let bref = &b;
+    let tref = &toks;
+    let r = std::thread::scope(|s| {
+        std::thread::Builder::new()
+            .stack_size(mib << 20)
+            .spawn_scoped(s, move || catch(std::panic::AssertUnwindSafe(|| deep_parse(bref, tref))))
+            .unwrap()
+            .join()
+    });
+    let body = match r {
+        Ok(Ok(s)) => s,
+        Ok(Err(m)) => format!(" # VL panic {}", m.replace('\n', " ").replace('#', "")),
+        Err(_) => " # VL panic (thread)".to_string(),
+    };
+    println!("DEEP {} {} {} # TK a={} b={} c={} # NL {} # CF {}{}", which, n, mib, a, bb, c, nl, if conflicts { 1 } else { 0 }, body);
+}
+
 fn main() {
     gvh::quiet_panics();
+    let argv: Vec<String> = std::env::args().collect();
+    if argv.get(1).map(|x| x.as_str()) == Some("deep") {
+        deep_main(&argv[2..]);
+        return;
+    }
     for_each_case(move |line| {
         let mut parts = line.split(';');
         let head = parts.next().unwrap();
         let mut hs = head.split_whitespace();
         let kind = hs.next().unwrap().to_string();
         let src = unhex(hs.next().unwrap_or(""));
+        let (mut rep, mut only, mut nodump): (usize, Option<Vec<usize>>, bool) = (1, None, false);
+        for opt in hs {
+            if let Some(v) = opt.strip_prefix("rep=") {
+                rep = v.parse().unwrap_or(1).max(1);
+            } else if let Some(v) = opt.strip_prefix("only=") {
+                only = Some(v.split(',').filter_map(|x| x.parse().ok()).collect());
+            } else if opt == "nodump=1" {
+                nodump = true;
+            }
+        }
         let b = match catch(std::panic::AssertUnwindSafe(|| build(&kind, &src))) {
             Err(m) => return format!("BUILDPANIC {}", m.replace('\n', " ")),
             Ok(Err(e)) => return e,
@@ -139,11 +300,13 @@ fn main() {
                 }
             }
         }
-        let mut o = dump_grammar(&b.grm);
-        o.push_str(" # ");
-        o.push_str(&dump_automaton(&b.grm, &b.sg, &b.st));
-        o.push_str(" # ");
-        o.push_str(&conflicts_dump(&b.st));
+        let mut o = if nodump { "G".to_string() } else { dump_grammar(&b.grm) };
+        if !nodump {
+            o.push_str(" # ");
+            o.push_str(&dump_automaton(&b.grm, &b.sg, &b.st));
+            o.push_str(" # ");
+            o.push_str(&conflicts_dump(&b.st));
+        }
         write!(
             o,
             " # KN {} {} {}",
@@ -174,13 +337,40 @@ fn main() {
             if !ok {
                 continue;
             }
+            if let Some(sel) = &only {
+                if !sel.contains(&idx) {
+                    continue;
+                }
+            }
             write!(o, " # I").unwrap();
             for t in &toks {
                 write!(o, " {}", t).unwrap();
             }
             let costs_first = (idx + toks.len()) % 2 == 1;
             write!(o, " # BO {}", if costs_first { 1 } else { 0 }).unwrap();
-            parse_with_recovery(&b, &toks, &costs, costs_first, &mut o);
+            let mut first = String::new();
+            parse_with_recovery(&b, &toks, &costs, costs_first, &mut first);
+            o.push_str(&first);
+            if rep > 1 && first.contains(" # ER ") {
+                let cut = |s: &str| -> String { s[..s.rfind(" # TM ").unwrap_or(s.len())].to_string() };
+                let tm = |s: &str| -> u128 { s.rfind(" # TM ").and_then(|k| s[k + 6..].trim().parse().ok()).unwrap_or(0) };
+                let (mut ndiff, mut maxms, mut shown) = (0usize, tm(&first), None);
+                for _ in 1..rep {
+                    let mut again = String::new();
+                    parse_with_recovery(&b, &toks, &costs, costs_first, &mut again);
+                    maxms = maxms.max(tm(&again));
+                    if cut(&again) != cut(&first) {
+                        ndiff += 1;
+                        if shown.is_none() {
+                            shown = Some(again);
+                        }
+                    }
+                }
+                write!(o, " # DT {} {} {}", rep, ndiff, maxms).unwrap();
+                if let Some(x) = shown {
+                    write!(o, " # DX {}", hex(&x)).unwrap();
+                }
+            }
         }
         o
     });
